@@ -2,8 +2,12 @@
     Only ExtrOcamlBasic (bool, option, unit, list, prod, sumbool mapped to OCaml's);
     no Extract Constant; nat/N/Z/positive stay the extracted inductives. *)
 From Coq Require Import ExtrOcamlBasic.
-From SFV Require Import Log.Ring.
+From SFV Require Import Log.Ring Base.F64 Api.IntDeser NanBox.NanBox Gen.NanBoxGen Base.Bytes Read.Lazy Read.ReadRun Msgpack.Wire Read.ReadSpec.
 Extraction Language OCaml.
 Set Extraction KeepSingleton.
 Separate Extraction
-  Ring.init Ring.append Ring.apply_plan Ring.log_msg Ring.read_ptrs Ring.host_view Ring.lastn Ring.run.
+  Ring.init Ring.append Ring.apply_plan Ring.log_msg Ring.read_ptrs Ring.host_view Ring.lastn Ring.run
+  NanBox.encode NanBox.nb_bool NanBox.nb_null NanBox.nb_string NanBox.nb_obj NanBox.nb_array NanBox.nb_error NanBox.nb_number NanBox.try_decode
+  NanBoxGen.MAX_VALUE_LENGTH NanBoxGen.ErrorCode_variants
+  F64.exact_int F64.of_int F64.of_f32 F64.is_nan IntDeser.deser_int IntDeser.int_min IntDeser.int_max
+  ReadRun.exec ReadRun.rinit ReadRun.run ReadSpec.spec_run ReadSpec.refs_ok Wire.enc Wire.wf Wire.no_nan.
